@@ -230,4 +230,35 @@ def parseQueriesText (s : String) : Option ParsedBase :=
     | some b => if b.conds.isEmpty then none else some b
     | none => none
 
+/-! ### printing (used by `Props/C10text.lean` and by the driver's `ftext` request) -/
+
+def tokChars : LTok → List Char
+  | .id s => s.toList
+  | .comma => [',']
+  | .semi => [';']
+  | .not => ['!']
+  | .lpar => ['(']
+  | .rpar => [')']
+  | _ => ['#']   -- tokens outside the formula vocabulary are never printed (`FTok`)
+
+/-- every token followed by one blank -/
+def unlexChars : List LTok → List Char
+  | [] => []
+  | t :: r => tokChars t ++ ' ' :: unlexChars r
+
+/-- concrete token of a grammar token, atoms written with their names -/
+def tokL (names : List String) : Tok → LTok
+  | .id n => .id (names.getD n "")
+  | .top => .id "Top"
+  | .bot => .id "Bottom"
+  | .not => .not
+  | .comma => .comma
+  | .semi => .semi
+  | .lpar => .lpar
+  | .rpar => .rpar
+
+/-- the text of a formula: minimal parentheses, one blank after every token -/
+def text (names : List String) (f : Fm) : String := String.ofList (unlexChars ((pp 2 f).map (tokL names)))
+
+
 end InfOCF
